@@ -33,6 +33,8 @@ REACTIONS = {
     "J/psi->omega pi+ pi- (b1)": dict(initial_state=("J/psi(1S)", [-1, 0, +1]), final_state=[("omega(782)", [-1, 0, +1]), "pi+", "pi-"],
                                      allowed_intermediate_particles=["b(1)(1235)+"], allowed_interaction_types=["strong"]),
     "Lambda_c->p K- pi+ (K*)": dict(initial_state="Lambda(c)+", final_state=["K-", "pi+", "p"], allowed_intermediate_particles=["K*(892)0"]),
+    "J/psi->gamma pi+ pi- (f2) [massless spin 1]": dict(initial_state=("J/psi(1S)", [-1, +1]), final_state=["gamma", "pi+", "pi-"],
+                                                        allowed_intermediate_particles=["f(2)(1270)"], allowed_interaction_types=["strong", "EM"]),
     "Lambda_c->p K- pi+ (Lambda(1520))": dict(initial_state="Lambda(c)+", final_state=["p", "K-", "pi+"], allowed_intermediate_particles=["Lambda(1520)"]),
 }  # fmt: skip
 
@@ -236,10 +238,12 @@ def worker(config, tier, seed):
 
 def configs(tier):
     out = [{"name": "create_spin_range", "kind": "spin"}, {"name": "aligned models formulate", "kind": "formulates"}]
-    reactions = ["J/psi->K0 Sigma+ p~ (Sigma(1660))", "Lambda_c->p K- pi+ (K*)"] if tier == "quick" else list(REACTIONS)
+    reactions = ["J/psi->K0 Sigma+ p~ (Sigma(1660))", "Lambda_c->p K- pi+ (K*)", "J/psi->gamma pi+ pi- (f2) [massless spin 1]"] if tier == "quick" else list(REACTIONS)
     for r in reactions:
         for al in ("axis-angle", "dpd1", "dpd2", "dpd3"):
-            if al == "axis-angle" and r.startswith("J/psi"):
+            if "massless" in r and al != "axis-angle":
+                continue  # DPD with a massless particle: the zeta angles are C19's subject (massless1 configs)
+            if al == "axis-angle" and r.startswith("J/psi") and "massless" not in r:
                 continue  # three Euler angles per spinning outer state and a spin-1 parent: z3 does not finish in minutes (outside the bound)
             out.append({"name": f"{r}|{al}", "kind": "align", "reaction": r, "alignment": al, "config_timeout": 900})
     return out
